@@ -191,6 +191,82 @@ theorem C13_nhop_step_noloop_counterexample :
     nHopEntry (nHopExtend 1 (nHopEntry (nHopM 1 A 1) false) A) false 0 0 = -1 ∧
     nHopEntry (nHopM 1 A 2) false 0 0 = 0 := by decide
 
+/-! #### hop counts of 4 and more: composing reachability matrices (binary powering) -/
+
+theorem walk_append {n : Nat} {A : BMat} {k1 k2 i m j : Nat} (w1 : Walk n A k1 i m) (hm : m < n)
+    (w2 : Walk n A k2 m j) : Walk n A (k1 + k2) i j := by
+  induction w2 with
+  | one ha => exact Walk.snoc w1 hm ha
+  | snoc _ hm' ha ih => exact Walk.snoc (ih w1 hm) hm' ha
+
+theorem walk_split {n : Nat} {A : BMat} (k1 : Nat) (h1 : 1 ≤ k1) :
+    ∀ (k2 : Nat), 1 ≤ k2 → ∀ {i j : Nat}, Walk n A (k1 + k2) i j → ∃ m, m < n ∧ Walk n A k1 i m ∧ Walk n A k2 m j := by
+  intro k2 h2
+  induction k2, h2 using Nat.le_induction with
+  | base =>
+    intro i j w
+    obtain ⟨m, hm, w', ha⟩ := walk_succ_inv h1 w
+    exact ⟨m, hm, w', Walk.one ha⟩
+  | succ k2 h2 ih =>
+    intro i j w
+    have w' : Walk n A ((k1 + k2) + 1) i j := by simpa [Nat.add_assoc] using w
+    obtain ⟨m', hm', w'', ha⟩ := walk_succ_inv (by omega) w'
+    obtain ⟨m, hm, wa, wb⟩ := ih w''
+    exact ⟨m, hm, wa, Walk.snoc wb hm' ha⟩
+
+/-- **C13_nhop_add**: when every vertex has its self loop (every element; every referenced node), reachability within
+`a + b` steps is the Boolean product of reachability within `a` and within `b` steps — what a formulation of
+`calculate_n_hop_adj` by products of powers (binary powering, `O(log n_hop)` products) relies on.  Hop counts of 4 and more
+are the first for which such a formulation can differ from the linear one (4 = 2 + 2 is the first squaring of a square). -/
+theorem C13_nhop_add (n : Nat) (A : BMat) (hdiag : ∀ i, i < n → A i i = true) (a b : Nat) (ha : 1 ≤ a) (hb : 1 ≤ b)
+    (i j : Nat) (hi : i < n) (hj : j < n) :
+    (nHopM n A (a + b)).get i j = mul n (nHopM n A a).get (nHopM n A b).get i j := by
+  apply Bool.eq_iff_iff.mpr
+  rw [C13_nhop_reach n A (a + b) (by omega) i j hi hj, mul_true]
+  constructor
+  · rintro ⟨k, k1, k2, w⟩
+    by_cases hk : k = 1
+    · subst hk
+      exact ⟨j, hj, (C13_nhop_reach n A a ha i j hi hj).mpr ⟨1, le_refl _, ha, w⟩,
+        (C13_nhop_reach n A b hb j j hj hj).mpr ⟨1, le_refl _, hb, Walk.one (hdiag j hj)⟩⟩
+    · -- k = ka + kb with 1 ≤ ka ≤ a, 1 ≤ kb ≤ b
+      have hsplit : ∃ ka kb, 1 ≤ ka ∧ ka ≤ a ∧ 1 ≤ kb ∧ kb ≤ b ∧ k = ka + kb := by
+        by_cases hka : k ≤ a
+        · exact ⟨k - 1, 1, by omega, by omega, le_refl _, hb, by omega⟩
+        · exact ⟨a, k - a, ha, le_refl _, by omega, by omega, by omega⟩
+      obtain ⟨ka, kb, h1, h2, h3, h4, rfl⟩ := hsplit
+      obtain ⟨m, hm, wa, wb⟩ := walk_split ka h1 kb h3 w
+      exact ⟨m, hm, (C13_nhop_reach n A a ha i m hi hm).mpr ⟨ka, h1, h2, wa⟩,
+        (C13_nhop_reach n A b hb m j hm hj).mpr ⟨kb, h3, h4, wb⟩⟩
+  · rintro ⟨m, hm, hra, hrb⟩
+    obtain ⟨ka, h1, h2, wa⟩ := (C13_nhop_reach n A a ha i m hi hm).mp hra
+    obtain ⟨kb, h3, h4, wb⟩ := (C13_nhop_reach n A b hb m j hm hj).mp hrb
+    exact ⟨ka + kb, by omega, by omega, walk_append wa hm wb⟩
+
+/-- squaring: the `2a`-hop matrix is the Boolean square of the `a`-hop matrix (self loops present) -/
+theorem C13_nhop_double (n : Nat) (A : BMat) (hdiag : ∀ i, i < n → A i i = true) (a : Nat) (ha : 1 ≤ a)
+    (i j : Nat) (hi : i < n) (hj : j < n) :
+    (nHopM n A (2 * a)).get i j = mul n (nHopM n A a).get (nHopM n A a).get i j := by
+  have := C13_nhop_add n A hdiag a a ha ha i j hi hj
+  rwa [← Nat.two_mul] at this
+
+example : let A : BMat := fun i j => i == j || (i, j) ∈ [(0, 1), (1, 0), (1, 2), (2, 1), (2, 3), (3, 2)]
+    (nHopM 4 A 3).get 0 3 = mul 4 (nHopM 4 A 1).get (nHopM 4 A 2).get 0 3 := by decide
+
+/-- the path 0 – 1 – 2 – 3 – 4 with self loops (a strip of five elements) -/
+def path5 : BMat := fun i j => i == j || i + 1 == j || j + 1 == i
+
+/-- **C13_nhop_binary_power_counterexample** (seeded change C13-10): binary powering whose running power is updated
+by `· adj` instead of being squared agrees with the definition for 1, 2 and 3 hops on every entry of the 5-path, and for
+4 hops returns only the 3-hop matrix: the ends of the path, at distance exactly 4, are missing; with the squaring update
+all hop counts 1..5 agree.  (Hop counts ≤ 3 and graphs of diameter ≤ 3 cannot tell the two apart.) -/
+theorem C13_nhop_binary_power_counterexample :
+    (∀ h ∈ [1, 2, 3], ∀ i ∈ List.range 5, ∀ j ∈ List.range 5,
+        (nHopBin false 5 path5 h).get i j = (nHopM 5 path5 h).get i j) ∧
+    (nHopBin false 5 path5 4).get 0 4 = false ∧ (nHopM 5 path5 4).get 0 4 = true ∧
+    (∀ h ∈ [1, 2, 3, 4, 5], ∀ i ∈ List.range 5, ∀ j ∈ List.range 5,
+        (nHopBin true 5 path5 h).get i j = (nHopM 5 path5 h).get i j) := by decide +kernel
+
 /-! ### Laplacian -/
 
 /-- **C13_laplacian_rowsum**: every row of the graph Laplacian sums to zero. -/
